@@ -25,6 +25,12 @@ SHAPES = {
         {"body": [{"k": "step", "script": [{"do": "fail", "cls": "ValueError", "msg": "x"}, {"do": "ok", "val": 1}], "retry": {"decisions": [("retry", 1), ("stop",)]}}]},
         {"body": [{"k": "step", "script": [{"do": "ok", "val": 2, "gate": "slow"}]}, {"k": "step", "val": 3}]}],
         "body": [], "cfg": {"preset": "all_completed"}}],
+    # after the timer thread's refresh checkpoint failed, neither branch needs another checkpoint to park again: the resubmitted one
+    # re-suspends on its (locally still running) wait, the sibling awaits a callback it created before the failure
+    "map-resubmitted-no-further-checkpoint": [{"k": "map", "items": [1, 2], "per_item": [
+        {"body": [{"k": "wait", "s": 1}, {"k": "step", "val": 1}]},
+        {"body": [{"k": "cb", "between": [{"k": "gate", "name": "slow"}]}]}],
+        "body": [], "cfg": {"preset": "all_completed"}}],
     "big-result": [{"k": "step", "val": 1}],
     # results large enough that the START and the SUCCEED of one step cannot share a batch (750 KB): the SUCCEED waits in the overflow queue
     "big-step": [{"k": "step", "script": [{"do": "ok", "big": 800 * 1024}]}, {"k": "step", "val": 2}],
@@ -37,7 +43,8 @@ SHAPES = {
                 "cfg": {"preset": "all_completed"}}],
 }
 # the sibling in "map-resubmitted" stays inside its step function until the resubmitted branch's refresh checkpoint has been seen
-HOLDS = {"map-resubmitted": [{"match": {"kind": "gate", "name": "slow"}, "until": {"event": {"kind": "api", "updates": [], "op": "checkpoint"}}}]}
+HOLDS = {"map-resubmitted-no-further-checkpoint": [{"match": {"kind": "gate", "name": "slow"}, "until": {"event": {"kind": "api", "updates": [], "op": "checkpoint"}}, "delay_ms": 30}],
+         "map-resubmitted": [{"match": {"kind": "gate", "name": "slow"}, "until": {"event": {"kind": "api", "updates": [], "op": "checkpoint"}}}]}
 
 
 def cases(tier, seed):
@@ -108,7 +115,7 @@ def _cls(r, sname, err, when):
     return "%s|%s|%s|%s|%s" % (sname, err.get("status") or err.get("cls"), when, what, r.get("stop"))
 
 
-RULE = ("for each of nine program shapes (steps whose results force the overflow queue (800 KB, 3 x 450 KB in parallel), the failing request "
+RULE = ("for each of ten program shapes (steps whose results force the overflow queue (800 KB, 3 x 450 KB in parallel), the failing request "
         "answered at once or left in flight 15-40 ms so that other records queue up behind it; sequential with at-most-once step / wait / wait_for_condition; nested child contexts with a "
         "callback; parallel with running branches; map with suspended (timer, callback) and running branches; map with a branch "
         "re-submitted by the TimerScheduler while a sibling is held inside its step function, so the failing call is the timer thread's "
